@@ -632,3 +632,51 @@ Lemma sdef_instance :
   symlink_wf ex_sdef /\ sdef_sig_tokens ex_sdef = Some ([60;97;62], [TStr [116]; TStr [105]]) /\
   sdef_sig_tokens (mkSdef [76] [] [] [116] [108] false) = None.
 Proof. repeat split. Qed.
+
+(* ---------- index alignment of the validity check ---------- *)
+
+(* validity compares output i with stored info i for every non-virtual i; virtual positions are ignored *)
+Theorem outputs_valid_aligned outs infos : length infos = length outs ->
+  (outputs_valid outs infos = Valid <->
+   forall i o s, nth_error outs i = Some o -> nth_error infos i = Some s -> on_virtual o = false -> output_matches o s = true).
+Proof.
+  intros Hl. destruct (outputs_valid_spec outs infos Hl) as [[E D] | [E D]]; rewrite E; split; intros H.
+  - intros i o s H1 H2 H3. destruct (output_matches o s) eqn:Em; [reflexivity|].
+    exfalso. apply D. exists i, o, s. auto.
+  - reflexivity.
+  - discriminate H.
+  - exfalso. destruct D as (i & o & s & H1 & H2 & H3 & H4). rewrite (H i o s H1 H2 H3) in H4. discriminate H4.
+Qed.
+
+Theorem outputs_valid_invalid_aligned outs infos : length infos = length outs ->
+  (outputs_valid outs infos = Invalid <-> output_differs outs infos).
+Proof.
+  intros Hl. destruct (outputs_valid_spec outs infos Hl) as [[E D] | [E D]]; rewrite E; split; intros H.
+  - discriminate H.
+  - contradiction.
+  - exact D.
+  - reflexivity.
+Qed.
+
+(* what is stored at a virtual position does not matter, wherever that position is *)
+Theorem outputs_valid_virtual_ignored o1 : forall s1 v o2 x y s2,
+  length s1 = length o1 -> on_virtual v = true ->
+  outputs_valid (o1 ++ v :: o2) (s1 ++ x :: s2) = outputs_valid (o1 ++ v :: o2) (s1 ++ y :: s2).
+Proof.
+  induction o1 as [|o o1 IH]; intros [|s s1] v o2 x y s2 Hl Hv; cbn [length] in Hl; try discriminate Hl.
+  - cbn [app outputs_valid tl]. rewrite Hv. reflexivity.
+  - injection Hl as Hl. cbn [app outputs_valid tl].
+    destruct (on_virtual o); [apply IH; assumption|].
+    destruct (output_matches o s); [apply IH; assumption | reflexivity].
+Qed.
+
+(* a file output after a virtual one is compared with ITS OWN stored info: [file a; virtual; file b] *)
+Lemma mixed_layout_instance :
+  let a := mkOnode false false (ex_info 10) in let v := mkOnode true false (ex_info 0) in
+  let b := mkOnode false false (ex_info 20) in
+  outputs_valid [a; v; b] [ex_info 10; ex_info 99; ex_info 20] = Valid /\
+  outputs_valid [v; a; b] [ex_info 99; ex_info 10; ex_info 20] = Valid /\
+  outputs_valid [a; v; b] [ex_info 10; ex_info 99; ex_info 21] = Invalid /\
+  outputs_valid [v; v] [ex_info 1; ex_info 2] = Valid /\
+  outputs_valid [v; a; b] [ex_info 10; ex_info 20; ex_info 99] = Invalid.
+Proof. vm_compute. repeat split. Qed.
